@@ -23,16 +23,17 @@ type c15Stream struct {
 }
 
 type c15Op struct {
-	Kind       string      // reg | query | foreach | info
-	Name       string      `json:",omitempty"` // service name (reg, query)
-	Unary      []string    `json:",omitempty"`
-	Streams    []c15Stream `json:",omitempty"`
-	Meta       string      `json:",omitempty"` // "", "str:<s>", "int", "nil"
-	Typed      bool        `json:",omitempty"` // HandlerType is a real interface with a method
-	BadHandler bool        `json:",omitempty"` // handler does not implement HandlerType (only with Typed)
-	Iface2     bool        `json:",omitempty"` // with Typed: the service's HandlerType is a second interface, which the usual (valid elsewhere) handler type does not implement
-	Wrapped    bool        `json:",omitempty"` // the registration goes through grpchan.WithInterceptor(reg, pass-through interceptors)
-	NilHandler bool        `json:",omitempty"` // handler is a nil pointer of the right type (stateless implementations; grpc.Server accepts it)
+	Kind        string      // reg | query | foreach | info
+	Name        string      `json:",omitempty"` // service name (reg, query)
+	Unary       []string    `json:",omitempty"`
+	Streams     []c15Stream `json:",omitempty"`
+	Meta        string      `json:",omitempty"` // "", "str:<s>", "int", "nil"
+	Typed       bool        `json:",omitempty"` // HandlerType is a real interface with a method
+	BadHandler  bool        `json:",omitempty"` // handler does not implement HandlerType (only with Typed)
+	Iface2      bool        `json:",omitempty"` // with Typed: the service's HandlerType is a second interface, which the usual (valid elsewhere) handler type does not implement
+	Wrapped     bool        `json:",omitempty"` // the registration goes through grpchan.WithInterceptor(reg, pass-through interceptors)
+	SameHandler bool        `json:",omitempty"` // a duplicate registration passes the handler value that is already registered
+	NilHandler  bool        `json:",omitempty"` // handler is a nil pointer of the right type (stateless implementations; grpc.Server accepts it)
 }
 
 type c15Case struct {
@@ -245,7 +246,13 @@ func propC15(c c15Case) *Outcome {
 		default:
 			h = &c15Good{id: i}
 		}
-		_, dup := model[op.Name]
+		prevEntry, dup := model[op.Name]
+		if dup && op.SameHandler {
+			// the very handler value that is registered already (e.g. registered plainly, then once more
+			// through an intercepting view): still a second registration under a taken name
+			h = prevEntry.handler
+			o.class("duplicate-with-identical-handler")
+		}
 		mustRefuse := dup || (op.Typed && op.BadHandler)
 		target := reg
 		if op.Wrapped {
@@ -307,6 +314,7 @@ func genC15(t *rapid.T) c15Case {
 			op.Iface2 = op.Typed && rapid.IntRange(0, 2).Draw(t, "iface2") == 0
 			op.NilHandler = !op.BadHandler && !op.Iface2 && rapid.IntRange(0, 5).Draw(t, "nilhandler") == 0
 			op.Wrapped = rapid.IntRange(0, 3).Draw(t, "wrapped") == 0
+			op.SameHandler = rapid.Bool().Draw(t, "samehandler")
 		}
 		c.Ops = append(c.Ops, op)
 	}
